@@ -246,7 +246,8 @@ def c12(tier, seed):
               "normalize, endgame::score and PositionScorer::score classification vs the oracle's retrograde solution; every 23rd "
               "position also reached by a capture from a four-man ending (parent evaluated first), every 5th evaluated again right "
               "after a KQK/KRK position of the same strong side (classification must not depend on what was evaluated before); "
-              "non-trivial = every position")
+              "fresh engine processes asked for `staticeval` of a K+P v K position before / right after `go infinite` (first use of "
+              "the knowledge, two threads); non-trivial = every position")
     c.exhaustive = True
     c.assumptions = ["oracle/kpk.cpp retrograde solver over K+P+K, K+Q+K, K+R+K with the oracle move generator; fixed-point and "
                      "textbook positions checked in the oracle self-test"]
@@ -254,6 +255,25 @@ def c12(tier, seed):
     c.require("kpk-reached-by-capture:weak-king-takes-pawn", 3000)
     c.require("kpk-reached-by-capture:strong-king-takes-knight", 3000)
     c.require("kpk-evaluated-after-another-endgame", 50000)
+    # the knowledge as the running engine gives it: a fresh process, `staticeval` of a K+P v K position on the reader thread
+    # before, or right after, a search thread was started on it (first use of the knowledge in that process)
+    res = _uci("kpkcold", seed + 8, 24 if q else 240, flavour="rel")
+    _uci_crashes(c, res)
+    for r_ in res:
+        for e in r_.get("evals", []):
+            c.evaluations += 1
+            c.counters["uci-kpk-staticevals"] = c.counters.get("uci-kpk-staticevals", 0) + 1
+            m = re.match(r"Score:\s*(cp|mate)\s+(-?\d+)", e["line"] or "")
+            if not m:
+                c.add_violation("uci-staticeval:no-score-line", {"tag": r_["tag"], "fen": e["fen"], "line": e["line"]})
+                continue
+            v = int(m.group(2)) if m.group(1) == "cp" else (1000000 if int(m.group(2)) > 0 else -1000000)
+            strong_v = v if e["strong_to_move"] else -v
+            win = strong_v >= 50000
+            if win != e["truth_win"]:
+                c.add_violation("uci-staticeval:%s:%s" % ("engine-draw-truth-win" if e["truth_win"] else "engine-win-truth-draw", r_["tag"].split(":")[1]),
+                                {"tag": r_["tag"], "fen": e["fen"], "engine": e["line"], "truth": "win" if e["truth_win"] else "draw", "cmds": r_["cmds"][-5:]})
+    c.require("uci-kpk-staticevals", 24 if q else 240)
     return c.finish()
 
 
@@ -271,10 +291,18 @@ def c20(tier, seed):
     # the allotment as a running search uses it: clock-governed searches of the real Search class, the budget read through the
     # iteration hooks (start and end of every iteration, before bestmove); verdict on the values, never on wall time
     _merge(c, _search("C20", tier, seed + 900, "rel", 20 if q else 400, 0, timeout=5400))
+    # the same through the real UCI front end (in-process Uci object, commands over a pipe): clock-governed `go` commands in
+    # nine argument orders (with / without searchmoves, increments, movestogo) after eight kinds of earlier commands in the
+    # same session (movetime / depth / nodes / stopped infinite / larger-clock / searchmoves searches, ucinewgame)
+    reps = 1 if q else 4
+    for rep in range(reps):
+        _merge(c, _split("C20", tier, seed + 950 + rep, "asan", "sched_monitor", ["--only-budget"], timeout=3000))
     c.rule = ("grid over remaining time x increment x movestogo x ply x colour, random tuples, and monotone sweeps (200 increasing clock "
               "values per (inc, movestogo, ply)); run in the -Ofast build users run and in the UBSan build; plus live clock-governed searches "
               "(roots with one and with many legal moves, allotment at the 70% cap, unstable scores) whose working budget is read at every "
-              "iteration boundary and must stay within 0..70% of the mover's clock; non-trivial = distinct random tuples and (root, go) pairs")
+              "iteration boundary and must stay within 0..70% of the mover's clock; the same budget read while an in-process Uci object "
+              "executes sessions (4 roots x 9 spellings of a clock-governed go x 8 kinds of earlier commands); non-trivial = distinct "
+              "random tuples and (root, go) pairs")
     c.assumptions = ["domain: time 0..24h ms, increment 0..10min, movestogo 0..200, ply 0..1000 (the property's quantifier)",
                      "live part: clocks 1..4000 ms so that a search takes at most a few seconds"]
     c.require("grid-points", 4000000)
@@ -283,6 +311,8 @@ def c20(tier, seed):
     c.require("live-searches:single-legal-move", 30 if q else 600)
     c.require("live-searches:budget-positive", 100 if q else 2000)
     c.require("live-searches:score-swing-with-allotment-at-the-cap", 1 if q else 20)
+    c.require("uci-budget-scenarios", 280 if q else 1100)
+    c.require("uci-budget:positive", 150 if q else 600)
     return c.finish()
 
 
